@@ -39,8 +39,10 @@ def run_call(c, variant):
     ins = [x] + (list(args) if args else [])
     d0 = [base.tdig(t) for t in ins]
     try:
+        # flags as the caller may hold them: Python bools, numpy bools (taken from an array / DataFrame) or 0 / 1
+        flag = [lambda v: v, lambda v: numpy.bool_(v), lambda v: int(v)][(variant // 4) % 3]
         r = saturation_mutagenesis(model, x, args=args, start=c["start"], end=c["end"], batch_size=c["bs"], target=target,
-                                   hypothetical=c["hyp"], raw_outputs=c["raw"], device="cpu")
+                                   hypothetical=flag(c["hyp"]), raw_outputs=flag(c["raw"]), device="cpu")
         ev["st"] = "ok"
         n = len(c["x"])
         if c["raw"]:
@@ -87,7 +89,7 @@ def gen_call(rng):
     out = rng.choice(["tensor", "tuple"]) if raw else "tensor"
     T = rng.randint(1, 4)
     tlo, thi = -1, 0
-    if not raw and rng.random() < 0.7:
+    if (not raw and rng.random() < 0.7) or (raw and rng.random() < 0.4):      # with raw outputs a target selects nothing: y0 / y_hat stay whole
         tlo = rng.randrange(T); thi = rng.randint(tlo + 1, T)
     args = [rng.randint(-9, 9) for _ in range(n)] if rng.random() < 0.5 else []
     if args and rng.random() < 0.3:
